@@ -120,6 +120,30 @@ func (m *RWMutex) RUnlock() {
 }
 
 //go:norace
+func (m *RWMutex) TryLock() bool {
+	if vsched.Active() {
+		vsched.YieldPC(uintptr(unsafe.Pointer(&m.st)))
+	}
+	if m.mu.TryLock() {
+		m.st.Held = true
+		return true
+	}
+	return false
+}
+
+//go:norace
+func (m *RWMutex) TryRLock() bool {
+	if vsched.Active() {
+		vsched.YieldPC(uintptr(unsafe.Pointer(&m.st)))
+	}
+	if m.mu.TryRLock() {
+		m.st.Readers++
+		return true
+	}
+	return false
+}
+
+//go:norace
 func (m *RWMutex) RLocker() Locker { return m.mu.RLocker() }
 
 type Once struct {
